@@ -304,7 +304,10 @@ def vec_elemwise(ctx: Ctx, f, args, elem=None, what="elementwise"):
             if isinstance(a, Vec):
                 elem = a.elem
                 break
-    return Vec(L, fn, kind="ndarray", elem=elem)
+    out = Vec(L, fn, kind="ndarray", elem=elem)
+    if any(getattr(a, "newaxis", None) == "row" for a in vecs):
+        out.newaxis = "row"      # shape (1, n)
+    return out
 
 
 # ---------------------------------------------------------------------------------------------
